@@ -25,7 +25,9 @@ ASSUMPTIONS = ['Stream.vle/.lle/.sle rewrite the phase label before converting (
                'a history stops at the first exception (the half-converted object a failed Stream.phases assignment leaves '
                'behind is not explored further)',
                'views_live is about sub-streams that are still in the parent\'s _streams cache: a view obtained before the '
-               'stream collapsed to a single phase, or whose label has no row any more, is a detached Stream by design']
+               'stream collapsed to a single phase, or whose label has no row any more, is a detached Stream by design',
+               'histories convert the stream, not its sub-streams: a sub-stream that is itself made multi-phase '
+               '(ms["l"].vle) becomes an independent MultiStream (outside the quantifier; see pending fix C12_4)']
 TRUSTED = ['model coq/C12/Model.v is hand-written from _stream.py/_multi_stream.py/indexer.py/_phase.py; tie = correspondence check',
            'rows are modelled by their dense values (sparse dictionary layout is C09); the equilibrium solver objects handed '
            'out by .vle/.lle/.sle are not modelled, only the accessor\'s effect on the stream',
@@ -156,6 +158,16 @@ CORPUS = [
     {'init': {'kind': 'multi', 'phases': ['g', 'l'], 'rows': [[0.5, 0., 0.], [1., 2., 0.]], 'T': 300., 'P': 101325.},
      'ops': [['view', 'l'], ['view', 'g'], ['vmass', 0], ['vmass', 1], ['phases', ['g', 'l', 's']], ['wpar', 'l', 0, 7.],
              ['wvmass', 0, 1, 64.], ['lle'], ['wvmass', 1, 0, 48.], ['wpar', 'g', 2, 3.], ['phases', ['g', 'l']], ['wvmass', 0, 2, 4.]]},
+    # MultiStream accessors must only ADD phases: non-empty upper-case phases keep label and material
+    {'init': {'kind': 'multi', 'phases': ['L', 'l'], 'rows': [[1., 0., 2.], [3., 4., 0.]], 'T': 300., 'P': 101325.},
+     'ops': [['vle'], ['sle'], ['wpar', 'L', 0, 0.5], ['lle']]},
+    {'init': {'kind': 'multi', 'phases': ['S', 'l', 's'], 'rows': [[1., 0., 2.], [3., 4., 0.], [0., 0.5, 0.]], 'T': 300., 'P': 101325.},
+     'ops': [['lle'], ['vle']]},
+    # a held view across several successive phase-set changes and a restore that changes T and P
+    {'init': {'kind': 'multi', 'phases': ['g', 'l'], 'rows': [[0.5, 0., 0.], [1., 2., 0.]], 'T': 350., 'P': 50000.},
+     'ops': [['view', 'l'], ['view', 'g'], ['save'], ['T', 310.], ['P', 2.5], ['phases', ['g', 'l', 's']], ['phases', ['g', 'l', 's', 'L']],
+             ['wview', 0, 0, 9.], ['wpar', 'l', 1, 10.], ['reduce'], ['sle'], ['wview', 0, 2, 3.], ['restore', 0], ['vT', 0, 333.],
+             ['P', 1e5], ['wview', 1, 1, 0.25]]},
     # Stream accessors relabel (solid -> liquid) / raise for 'S' (known findings, see WITNESSES)
     {'init': {'kind': 'single', 'phase': 's', 'flow': [1., 0., 0.], 'T': 300., 'P': 101325.}, 'ops': [['vle']]},
     {'init': {'kind': 'single', 'phase': 'S', 'flow': [1., 0., 0.], 'T': 300., 'P': 101325.}, 'ops': [['vle']]},
@@ -439,6 +451,19 @@ def oracle(case):
             new = [p for p, _ in after]
             if name in ('view', 'save') and after != before:
                 return f'{name}: changed flows or phases'
+            if name in ('vle', 'lle', 'sle') and was_multi:
+                # merely asking a MultiStream for a solver object: every phase keeps its label and its material,
+                # phases are only added (C12_accessor_moves_nothing_partial)
+                for p, row in before:
+                    if p not in new:
+                        return (f'{name}: placement: asking for the solver object removed phase {p!r} (it held {row}); '
+                                f'phases now {tuple(new)} (step {step}, {r}) {was}')
+                    if dict(after)[p] != row:
+                        return (f'{name}: placement: asking for the solver object changed phase {p!r}: {row} -> {dict(after)[p]} '
+                                f'(step {step}, {r}) {was}')
+                for p, row in after:
+                    if p not in dict(before) and any(row):
+                        return f'{name}: placement: the added phase {p!r} is not empty: {row} (step {step}, {r}) {was}'
             if covers(set(new), ne) or name in ('vle', 'lle', 'sle', 'reduce', 'as_stream'):
                 # placement: material of p ends in p if the result has p, else in the other case
                 exp = {p: [0.] * N for p in new}
